@@ -235,6 +235,23 @@ func init() {
 		outcomes := map[string]int{}
 		tmpf := cs.Path + ".cut"
 		defer os.Remove(tmpf)
+		// KeysFile.tla behaviours of the shape  write; read (ok); crash(cut); read (must fail)  in ONE process, as a service or tool that
+		// loads a good file and later meets a truncated one: first a few prefixes in the cold process, then the complete file through
+		// ReadSystemFromFile, then every cut
+		for i := 0; i < 3 && i < len(cs.Cuts); i++ {
+			cut := cs.Cuts[(i*len(cs.Cuts))/3]
+			os.WriteFile(tmpf, data[:cut], 0o644)
+			if o, d := readFile(tmpf); o != "error" {
+				bad++
+				emit(Result{ID: fmt.Sprintf("%s/%s/cold-cut%d", cs.ID, cs.Fmt, cut), OK: false, Kind: "truncated-read",
+					Detail: fmt.Sprintf("ReadSystemFromFile on the first %d of %d bytes in a fresh process: %s %s — KeysFile.tla: a strict prefix never loads", cut, cs.Total, o, d),
+					Case:   map[string]interface{}{"id": cs.ID, "fmt": cs.Fmt, "cuts": []int{cut}, "total": cs.Total}})
+			}
+		}
+		if o, d := readFile(cs.Path); o != "loaded" {
+			emit(Result{ID: cs.ID + "/" + cs.Fmt + "/full-file", OK: false, Kind: "infra", Detail: "ReadSystemFromFile does not load the complete file: " + o + " " + d})
+			return
+		}
 		progress := cs.Path + ".progress"
 		defer os.Remove(progress)
 		for _, cut := range cs.Cuts {
